@@ -1730,6 +1730,10 @@ mod crypto {
 
     impl Drop for CryptoWriter<'_> {
         fn drop(&mut self) {
+            if self.failed {
+                // A previous flush has failed, and this has been reported to the caller.
+                return;
+            }
             self.flush().expect("The implicit flush in the Drop of CryptoWriter failed. This causes this panic. If you want to be able to handle this, make sure to call flush() manually. If a manual flush has failed, Drop won't panic.");
         }
     }
